@@ -181,7 +181,7 @@ func (conn *Conn) CollectionUpdate(ctx context.Context, options arvados.UpdateOp
 }
 
 func rewriteManifest(mt, remoteID string) string {
-	return regexp.MustCompile(` [0-9a-f]{32}\+[^ ]*`).ReplaceAllStringFunc(mt, func(tok string) string {
+	return regexp.MustCompile(` [0-9a-f]{32}\+[^ \n]*`).ReplaceAllStringFunc(mt, func(tok string) string {
 		return strings.Replace(tok, "+A", "+R"+remoteID+"-", -1)
 	})
 }
